@@ -270,6 +270,13 @@ class World(object):
             if from_disk and not first and not (cfg["cause"] == "build" and self.cause_fixed):
                 self.crop = xyz.Crop(**kw)          # farmer un-pickled from the settings file
                 self.farmer = self.crop.farmer
+            elif (first and self.variant.get("positional_crop") and not cfg["shufCtor"] and "autoload" not in kw
+                  and self.cause == "none"):
+                # the farmer's own Crop(...) constructor with positional arguments (name, parent_dir, save_fn, batchsize,
+                # num_batches)
+                if self.farmer is None:
+                    self.farmer = self.make_farmer(broken=False)
+                self.crop = self.farmer.Crop(kw["name"], kw["parent_dir"], None, kw.get("batchsize"), kw.get("num_batches"))
             else:
                 if from_disk and not first:
                     from xyzpy.gen.cropping import from_pickle, read_from_disk, FNCT_NM
@@ -1058,7 +1065,7 @@ def default_variants(case, idx):
              resources=(k % 3 != 1), path_words=(k % 4 == 1), no_autoload=(k % 4 in (1, 3)), observer_fresh=(k % 4 in (0, 1)),
              bare_case_dict=(k % 2 == 0), cases_combos_rev=(k % 4 == 2), early_resow=(k % 6 == 0),
              ids_spelling=["tuple", "gen", "list", "iter", "tuple"][k % 5], reap_wait=(k % 3 == 0), sibling=(k % 2 == 1), rel_data=(k % 4 == 2),
-             bool_attrs=(k % 3 == 1), stray_tmp=(k % 2 == 0), direct_unsynced=(k % 2 == 1), merge_fix_false=(k % 2 == 0))
+             bool_attrs=(k % 3 == 1), stray_tmp=(k % 2 == 0), direct_unsynced=(k % 2 == 1), merge_fix_false=(k % 2 == 0), positional_crop=(k % 3 == 0))
     if cfg["farmer"] == "none":
         v["result"] = ["scalar", "xy", "array", "str", "bool"][k % 5]
     else:
